@@ -10,11 +10,14 @@ fuzz_target!(|data: &[u8]| {
     if data.len() < 2 {
         return;
     }
-    let jobs = checks::c10::jobs();
+    static JOBS: std::sync::OnceLock<Vec<checks::c10::Job>> = std::sync::OnceLock::new();
+    let jobs = JOBS.get_or_init(|| {
+        checks::c10::init_worker(None, 0);
+        checks::c10::jobs()
+    });
     let j = &jobs[(data[0] as usize * 7 + data[1] as usize) % jobs.len()];
     let text = &data[2..];
     let mut l = Local::new();
-    checks::c10::init_worker(None, 0);
     if let Err(f) = checks::c10::total_check(j.entry, j.ty, text, data[0] & 1 == 1, &mut l) {
         panic!("VIOLATION property=C10 {}", f.message);
     }
